@@ -1,5 +1,5 @@
 ID = "C02"
-LEVEL = "proof"
+LEVEL = "other"
 CONTRACT_MODULES = ["contracts.sorting", "contracts.tasks"]
 FUNCTIONS = ["_dfs", "toposort", "Manager.find_taskids", "Manager.find_tasks"]
 RAC = "rac/c02.py"
